@@ -81,6 +81,7 @@ mod c13 {
     #[kani::proof] #[kani::unwind(8)] fn c13_axle_2() { axle_n::<2>(); }
     #[kani::proof] #[kani::unwind(8)] fn c13_axle_3() { axle_n::<3>(); }
     #[kani::proof] #[kani::unwind(8)] fn c13_axle_4() { axle_n::<4>(); }
+    #[kani::proof] #[kani::unwind(9)] fn c13_axle_5() { axle_n::<5>(); }
     // ---- a differential never alters the commands of its terminals
     #[kani::proof]
     #[kani::unwind(4)]
@@ -133,12 +134,12 @@ mod c13 {
 
 def spec(ctx):
     b2 = list(itertools.product([0, 1], repeat=2))
-    ax = (1, 2, 3) if ctx.quick else (1, 2, 3, 4)
+    ax = (1, 2, 3) if ctx.quick else (1, 2, 3, 4, 5)
     hs = [
         Harness("c13_invert", "e2", unwind=4, skeletons=b2, clause="inverter: every presence pattern, all command kinds / values / timestamps"),
         Harness("c13_gear_train", "e2", unwind=4, skeletons=b2, clause="gear train: every presence pattern, ratio any f32"),
     ]
-    hs += [Harness("c13_axle_%d" % n, "e2", unwind=8, skeletons=list(itertools.product([0, 1], repeat=n)), clause="axle with %d terminals: every subset holding a command" % n) for n in ax]
+    hs += [Harness("c13_axle_%d" % n, "e2", unwind=9, skeletons=list(itertools.product([0, 1], repeat=n)), clause="axle with %d terminals: every subset holding a command" % n) for n in ax]
     hs.append(Harness("c13_differential", "e2", unwind=4, skeletons=[(m,) + p for m in range(4) for p in itertools.product([0, 1], repeat=3)], clause="differential: commands untouched in every mode / presence pattern"))
     hs.append(Harness("c13_terminal_reads", "e2", timeout=300, skeletons=list(itertools.product([0, 1], repeat=5)),
                       clause="a terminal's command read is the newer of its own and its partner's command (every presence pattern, linked or not): what a device sees at a linked terminal"))
